@@ -461,3 +461,15 @@ def run(ck):
     ck.attempt(rule_energy_totals, rid="C02.R8")
     # "total energy delivered equals the time-integral of recorded aggregate power": aggregate power / current as defined (shared with C18)
     ck.attempt(rule_current_power, rid_c="C02.R8c", rid_p="C02.R8p")
+
+
+_run_before_pairing = run
+
+
+def run(ck):
+    _run_before_pairing(ck)
+    # "total energy delivered equals the integral of recorded aggregate power": the totals are sums over the session history, so every
+    # plugged-in session must be recorded there under its own session id - keyed by anything else (the station, say) a later session
+    # overwrites an earlier one and its energy drops out of the total (pairing rule of C01)
+    from .c01 import rule_pairing
+    ck.attempt(rule_pairing, rid="C02.R9")
